@@ -242,7 +242,7 @@ def corr(ctx):
                     continue
                 m = measure(name, H, B)
                 ok = "error" not in m and m["out"] == [B, 3, H, H] and m["finite"] and m["latent"][0] == B and (orange is None or (m["min"] >= orange[0] and m["max"] <= orange[1]))
-                ops.append(Op("gray 0", "0", nontrivial=False, info={"site": "models.image:%s.shape" % name, "config": dict(m, H=H, B=B, documented_range=orange)}, prop_ok=ok))
+                ops.append(Op("gray 0", "0", nontrivial=True, info={"site": "models.image:%s.shape" % name, "config": dict(m, H=H, B=B, documented_range=orange)}, prop_ok=ok))
                 ctx.count("shape_cases")
     # bandwidth ratio of the Bourtsoulatze pair and the filter-count formula
     from kaira.utils import calculate_num_filters_factor_image
@@ -295,7 +295,7 @@ def corr(ctx):
                     ok = dev <= tol
                 except Exception as ex:
                     dev, detail, ok = float("inf"), "%s: %s" % (type(ex).__name__, str(ex)[:120]), False
-                ops.append(Op("gray 0", "0", nontrivial=False, info={"site": "gradients:%s" % sname, "config": {"complex": cplx, "shape": list(shape), "relative_deviation": dev, "detail": detail}}, prop_ok=ok))
+                ops.append(Op("gray 0", "0", nontrivial=True, info={"site": "gradients:%s" % sname, "config": {"complex": cplx, "shape": list(shape), "relative_deviation": dev, "detail": detail}}, prop_ok=ok))
                 ctx.count("gradient_cases")
     # ---------------- end to end: the loss gradient reaches every encoder parameter
     from kaira.models.deepjscc import DeepJSCCModel
@@ -336,7 +336,7 @@ def corr(ctx):
                     cfg = {"arch": aname, "chain": cname, "H": H, "B": B, "parameters_without_gradient": bad[:6], "n_parameters": len(names), "initialisations_tried": attempt + 1}
                 except Exception as ex:
                     ok, cfg = False, {"arch": aname, "chain": cname, "H": H, "B": B, "error": "%s: %s" % (type(ex).__name__, str(ex)[:160])}
-                ops.append(Op("gray 0", "0", nontrivial=False, info={"site": "models:DeepJSCCModel.backward", "config": cfg}, prop_ok=ok))
+                ops.append(Op("gray 0", "0", nontrivial=True, info={"site": "models:DeepJSCCModel.backward", "config": cfg}, prop_ok=ok))
                 ctx.count("end_to_end")
     return ops
 
